@@ -1067,6 +1067,16 @@ func facetJSON(args []string) error {
 				fmt.Fprintf(cw, "jsonenc\t%s\t%s\t%s\n", c.ID, tn, hexs(string(vb)))
 				cases = append(cases, c)
 			}
+			if s.Kind == "oneOf" {
+				// the zero value of a union (no alternative chosen): there is nothing valid to write
+				// for it — the encoder has to refuse, not to invent `null`
+				v := rt.Val{K: "noalt"}
+				a, _ := json.Marshal(map[string]any{"type": tn, "val": v})
+				c := rt.Case{Op: "jsonenc", Pkg: r.Name, ID: fmt.Sprintf("%s#e%s.z", r.Name, tn), Args: a}
+				vb, _ := json.Marshal(v)
+				fmt.Fprintf(cw, "jsonenc\t%s\t%s\t%s\n", c.ID, tn, hexs(string(vb)))
+				cases = append(cases, c)
+			}
 			for k, dc := range env.docCasesFor(crng, s, ndocs) {
 				a, _ := json.Marshal(map[string]any{"type": tn, "doc": dc.doc})
 				c := rt.Case{Op: "jsondec", Pkg: r.Name, ID: fmt.Sprintf("%s#d%s.%d", r.Name, tn, k), Args: a}
